@@ -19,6 +19,8 @@ package abi
 
 import (
 	"bytes"
+	"encoding/binary"
+	"encoding/json"
 	"encoding/hex"
 	"errors"
 	"fmt"
@@ -26,6 +28,8 @@ import (
 	"reflect"
 	"strconv"
 	"strings"
+	"sync"
+	"sync/atomic"
 	"testing"
 
 	"github.com/ethereum/go-ethereum/common"
@@ -235,13 +239,27 @@ func c51ReadWord(buf []byte, pos int) (*big.Int, []byte, error) {
 	return new(big.Int).SetBytes(buf[pos : pos+32]), buf[pos : pos+32], nil
 }
 
-func c51ReadLen(buf []byte, pos int) (int, error) {
-	x, _, err := c51ReadWord(buf, pos)
-	if err != nil || !x.IsInt64() || x.Int64() > int64(len(buf)) {
+// c51ReadLen reads an offset / length word: it must not exceed the frame length. With low64 only the low 64 bits
+// are looked at (used solely to classify a known laxity of the real decoder, never as an oracle).
+func c51ReadLen(buf []byte, pos int, low64 bool) (int, error) {
+	if pos < 0 || pos+32 > len(buf) {
 		return 0, errC51
 	}
-	return int(x.Int64()), nil
+	if !low64 && !c51AllZero(buf[pos:pos+24]) {
+		return 0, errC51
+	}
+	x := binary.BigEndian.Uint64(buf[pos+24 : pos+32])
+	if x > uint64(len(buf)) {
+		return 0, errC51
+	}
+	return int(x), nil
 }
+
+const (
+	c51Lenient = iota // value padding ignored
+	c51Strict         // value padding must be clean
+	c51Low64          // lenient, and offsets of dynamic fixed-size arrays are reduced modulo 2^64
+)
 
 func c51AllZero(b []byte) bool {
 	for _, x := range b {
@@ -252,19 +270,19 @@ func c51AllZero(b []byte) bool {
 	return true
 }
 
-func c51DecSeq(ts []*c51T, buf []byte, strict bool) ([]*c51V, error) {
+func c51DecSeq(ts []*c51T, buf []byte, mode int) ([]*c51V, error) {
 	pos := 0
 	out := make([]*c51V, len(ts))
 	for i, t := range ts {
 		var err error
 		if t.dynamic() {
-			off, e := c51ReadLen(buf, pos) // offset must point into the frame
+			off, e := c51ReadLen(buf, pos, mode == c51Low64 && t.K == "array") // offset must point into the frame
 			if e != nil {
 				return nil, e
 			}
-			out[i], err = c51Dec(t, buf[off:], strict)
+			out[i], err = c51Dec(t, buf[off:], mode)
 		} else {
-			out[i], err = c51Dec(t, buf[pos:], strict)
+			out[i], err = c51Dec(t, buf[pos:], mode)
 		}
 		if err != nil {
 			return nil, err
@@ -275,7 +293,8 @@ func c51DecSeq(ts []*c51T, buf []byte, strict bool) ([]*c51V, error) {
 }
 
 // c51Dec decodes a value whose encoding starts at buf[0].
-func c51Dec(t *c51T, buf []byte, strict bool) (*c51V, error) {
+func c51Dec(t *c51T, buf []byte, mode int) (*c51V, error) {
+	strict := mode == c51Strict
 	switch t.K {
 	case "uint", "int", "bool", "address", "fixed":
 		x, w, err := c51ReadWord(buf, 0)
@@ -316,7 +335,7 @@ func c51Dec(t *c51T, buf []byte, strict bool) (*c51V, error) {
 			return &c51V{B: append([]byte{}, w[:t.N]...)}, nil
 		}
 	case "bytes", "string":
-		n, err := c51ReadLen(buf, 0)
+		n, err := c51ReadLen(buf, 0, false)
 		if err != nil || 32+n > len(buf) {
 			return nil, errC51
 		}
@@ -328,23 +347,23 @@ func c51Dec(t *c51T, buf []byte, strict bool) (*c51V, error) {
 		}
 		return &c51V{B: append([]byte{}, buf[32:32+n]...)}, nil
 	case "slice":
-		n, err := c51ReadLen(buf, 0)
+		n, err := c51ReadLen(buf, 0, false)
 		if err != nil {
 			return nil, err
 		}
-		es, err := c51DecSeq(t.members(n), buf[32:], strict)
+		es, err := c51DecSeq(t.members(n), buf[32:], mode)
 		if err != nil {
 			return nil, err
 		}
 		return &c51V{E: es}, nil
 	case "array":
-		es, err := c51DecSeq(t.members(t.N), buf, strict)
+		es, err := c51DecSeq(t.members(t.N), buf, mode)
 		if err != nil {
 			return nil, err
 		}
 		return &c51V{E: es}, nil
 	default:
-		es, err := c51DecSeq(t.Fields, buf, strict)
+		es, err := c51DecSeq(t.Fields, buf, mode)
 		if err != nil {
 			return nil, err
 		}
@@ -739,13 +758,18 @@ type c51Case struct {
 	Value string `json:"value,omitempty"`
 	Data  string `json:"data,omitempty"` // hex
 }
+// c51Finding is a violation of a recognised class; the class is part of the violation key.
+type c51Finding struct {
+	class string
+	msg   string
+}
+
+func (f *c51Finding) Error() string { return f.class + ": " + f.msg }
 
 // c51CheckDecode runs the real decoder on data and applies the sandwich oracle. want != "" additionally pins the value.
 // It returns the outcome class.
 func c51CheckDecode(ts []*c51T, args Arguments, data []byte, want string, mustSucceed bool) (string, error) {
 	vals, err := args.Unpack(data)
-	lenient, lerr := c51DecSeq(ts, data, false)
-	strict, serr := c51DecSeq(ts, data, true)
 	if len(data) == 0 {
 		// Arguments.Unpack documents an explicit error for empty input when arguments are expected
 		if err == nil {
@@ -753,12 +777,12 @@ func c51CheckDecode(ts []*c51T, args Arguments, data []byte, want string, mustSu
 		}
 		return "error", nil
 	}
-	if serr == nil && lerr != nil {
-		return "", fmt.Errorf("harness: strict reference accepts what the lenient one rejects")
-	}
+	lenient, lerr := c51DecSeq(ts, data, c51Lenient)
 	if err != nil {
-		if serr == nil {
-			return "", fmt.Errorf("Unpack rejects (%v) a well-formed, cleanly padded encoding of %s", err, c51CanonSeq(ts, strict))
+		if lerr == nil { // strict accepts only what lenient accepts
+			if strict, serr := c51DecSeq(ts, data, c51Strict); serr == nil {
+				return "", fmt.Errorf("Unpack rejects (%v) a well-formed, cleanly padded encoding of %s", err, c51CanonSeq(ts, strict))
+			}
 		}
 		if mustSucceed {
 			return "", fmt.Errorf("Unpack failed: %v", err)
@@ -770,7 +794,11 @@ func c51CheckDecode(ts []*c51T, args Arguments, data []byte, want string, mustSu
 		return "", cerr
 	}
 	if lerr != nil {
-		return "", fmt.Errorf("Unpack accepts input that is structurally malformed per the ABI spec (offset/length outside the data); decoded %s", got)
+		if low, e := c51DecSeq(ts, data, c51Low64); e == nil && c51CanonSeq(ts, low) == got {
+			return "", &c51Finding{"array-offset-high-bits-ignored", fmt.Sprintf("Unpack accepts an offset word >= 2^64 for a fixed-size array of dynamic elements by looking only at its low 64 bits "+
+				"(unpack.go toGoType, case ArrayTy: binary.BigEndian.Uint64(returnOutput[len(returnOutput)-8:])); decoded %s", got)}
+		}
+		return "", &c51Finding{"accepts-malformed-structure", "Unpack accepts input whose offsets / lengths point outside the data per the ABI spec; decoded " + got}
 	}
 	if ref := c51CanonSeq(ts, lenient); ref != got {
 		return "", fmt.Errorf("Unpack decoded %s, the ABI spec reading of the input is %s", got, ref)
@@ -814,7 +842,7 @@ func c51CheckEncode(ts []*c51T, args Arguments, ats []Type, vs []*c51V, allTrunc
 		return fmt.Errorf("Pack = %x, ABI spec encoding = %x", enc, ref)
 	}
 	// self-check of the reference pair
-	if back, err := c51DecSeq(ts, ref, true); err != nil || c51CanonSeq(ts, back) != want {
+	if back, err := c51DecSeq(ts, ref, c51Strict); err != nil || c51CanonSeq(ts, back) != want {
 		return fmt.Errorf("harness: reference decoder does not invert the reference encoder")
 	}
 	if cls, err := c51CheckDecode(ts, args, enc, want, true); err != nil {
@@ -848,15 +876,15 @@ func c51CheckEncode(ts []*c51T, args Arguments, ats []Type, vs []*c51V, allTrunc
 	return nil
 }
 
-func c51Alphabet(r *mc.R) [][]byte {
+func c51Alphabet(n int) [][]byte {
 	words := []*big.Int{
-		big.NewInt(0), big.NewInt(1), big.NewInt(0x20), big.NewInt(0x40), big.NewInt(2), big.NewInt(0x60),
-		new(big.Int).Sub(c51Two256, big.NewInt(1)),                // 2^256-1 (int -1, uint max, huge offset)
-		new(big.Int).Add(c51Pow2(64), big.NewInt(0x20)),           // offset/length whose low 64 bits look harmless
-		c51Pow2(255),                                              // int256 min
-		big.NewInt(0x80),                                          // int8 out of range, offset 4 words
+		big.NewInt(0), big.NewInt(1), big.NewInt(0x20), big.NewInt(0x40), big.NewInt(0x60),
+		new(big.Int).Sub(c51Two256, big.NewInt(1)),      // 2^256-1 (int -1, uint max, huge offset)
+		new(big.Int).Add(c51Pow2(64), big.NewInt(0x20)), // offset/length whose low 64 bits look harmless
+		big.NewInt(2),                                   // length 2, dirty bool
+		c51Pow2(255),                                    // int256 min
+		big.NewInt(0x80),                                // int8 out of range, offset 4 words
 	}
-	n := mc.Pick(r, 8, 10)
 	var out [][]byte
 	for _, w := range words[:n] {
 		out = append(out, c51Word(w))
@@ -864,34 +892,121 @@ func c51Alphabet(r *mc.R) [][]byte {
 	return out
 }
 
+// c51DecodeRep selects the argument lists used for the word-sequence decoding space: tuples of two base types only
+// over a reduced base set (the layout of a tuple does not depend on which one-word static type a member is).
+func c51DecodeRep(t *c51T) bool {
+	switch t.K {
+	case "slice", "array":
+		return c51DecodeRep(t.Elem)
+	case "tuple":
+		allBase := true
+		for _, f := range t.Fields {
+			if f.K == "slice" || f.K == "array" || f.K == "tuple" {
+				allBase = false
+			}
+		}
+		if !allBase {
+			return true
+		}
+		for _, f := range t.Fields {
+			s := f.String()
+			if s != "uint8" && s != "int256" && s != "bool" && s != "bytes1" && s != "bytes" && s != "string" {
+				return false
+			}
+		}
+	}
+	return true
+}
+
 func TestVerif_C51(t *testing.T) {
 	mc.Run(t, "C51", func(r *mc.R) {
 		u := c51Build()
 		maxWords := mc.Pick(r, 4, 5)
-		alphabet := c51Alphabet(r)
+		alphabet := c51Alphabet(mc.Pick(r, 7, 9))
+		variants := mc.Pick(r, 2, 3)
 		r.Rule("types: 11 base types (uint8/64/256, int8/256, bool, address, bytes1/32, bytes, string) closed under T[], T[2], (T,U) to depth 1 completely and to depth 2 for T[] / T[2] over all depth-1 types and (T,U) over 12 representatives, " +
 			"plus every integer width 8..256, bytes2/3/20/31, 3-element arrays, 3/4-field tuples, T[][][]; argument lists of one type (all) or two types (12x12 representatives). " +
-			"encode: per type every combination of boundary values (full sets at the top two levels, 3 per leaf / 4 per aggregate below; slices of length 0,1,2): Pack == spec encoder, Unpack(Pack(v)) == v, +junk, every truncation. " +
-			"decode: per argument list every sequence of <= maxWords words over the word alphabet, each also minus its last byte and plus one byte: strict-reference-accepts => Unpack accepts => lenient-reference-accepts with equal values, re-encoding canonical and stable. " +
-			"distinct = distinct (type list, decoded value) pairs that the real decoder produced")
+			"encode: per argument list every combination of boundary values (full sets at the top two levels, 3 per leaf / 4 per aggregate below; slices of length 0,1,2): Pack == spec encoder, Unpack(Pack(v)) == v, +junk, truncations. " +
+			"decode: per argument list (tuples of two base types only over 6 representative base types) every sequence of <= maxWords words over the word alphabet, each also minus its last byte (thorough: and plus one byte): " +
+			"strict-reference-accepts => Unpack accepts => lenient-reference-accepts with equal values, re-encoding canonical and stable. " +
+			"distinct = distinct (type list, value) pairs encoded or produced by the real decoder")
 		r.Bound("types_single", len(u.single))
 		r.Bound("types_pairs", len(u.pairs))
 		r.Bound("decode_max_words", maxWords)
 		r.Bound("decode_word_alphabet", len(alphabet))
+		r.Bound("decode_variants_per_sequence", variants)
 		r.Assume("reference encoder/decoder c51Enc/c51Dec are transcriptions of the Solidity ABI specification (formal encoding section); value padding that the spec's strict mode rejects may be accepted or rejected by the real decoder (sandwich oracle), structure (offsets, lengths) may not be misread")
 		r.Assume("Go values handed to Pack are of the exact Go types Type.GetType() prescribes and within the range of the ABI type")
 
 		lists := append(append([][]*c51T{}, u.single...), u.pairs...)
+		// replay: only the argument list of the replayed case
+		var replay *c51Case
+		if r.Replaying() {
+			replay = new(c51Case)
+			if json.Unmarshal(r.ReplayDescriptor(), replay) != nil {
+				return
+			}
+		}
+		var decodeLists int64
+		var findings sync.Map // class|types -> reported
+		report := func(c c51Case, err error) {
+			if f, ok := err.(*c51Finding); ok {
+				key := "C51 " + f.class + " types=" + c.Types
+				if _, dup := findings.LoadOrStore(key, true); !dup || r.Replaying() {
+					r.Violation(key, f.msg+" [first input: "+c.Data+"]", c)
+				}
+				return
+			}
+			b, _ := json.Marshal(c)
+			r.Violation(string(b), err.Error(), c)
+		}
 		r.Parallel(len(lists), func(li int) {
 			ts := lists[li]
-			args, ats := c51Args(ts)
 			tl := c51TypeList(ts)
-			outcomes := map[string]int64{}
+			if replay != nil && replay.Types != tl {
+				return
+			}
+			args, ats := c51Args(ts)
+			var nEnc, nErr, nCanon, nNoncanon, nViol int64
 			defer func() {
-				for k, n := range outcomes {
-					r.OutcomeN(k, n)
-				}
+				r.OutcomeN("encode:ok", nEnc)
+				r.OutcomeN("decode:error", nErr)
+				r.OutcomeN("decode:ok-canonical-prefix", nCanon)
+				r.OutcomeN("decode:ok-noncanonical", nNoncanon)
+				r.OutcomeN("decode:violation", nViol)
 			}()
+			decodeOne := func(data []byte) {
+				r.Eval(1)
+				var cls string
+				err := mc.Safely(func() (e error) { cls, e = c51CheckDecode(ts, args, data, "", false); return })
+				switch {
+				case err != nil:
+					nViol++
+					report(c51Case{Mode: "decode", Types: tl, Data: hex.EncodeToString(data)}, err)
+				case cls == "error":
+					nErr++
+				default:
+					if cls == "ok-canonical-prefix" {
+						nCanon++
+					} else {
+						nNoncanon++
+					}
+					if vals, err := args.Unpack(data); err == nil {
+						if cs, err := c51CanonGoSeq(ts, vals); err == nil {
+							if r.DistinctHash(mc.Hash64("d|"+tl+"|"+cs)) && nCanon+nNoncanon < 3 && li%41 == 0 {
+								r.Sample(c51Case{Mode: "decode", Types: tl, Data: hex.EncodeToString(data), Value: cs})
+							}
+						}
+					}
+				}
+			}
+			if replay != nil && replay.Mode == "decode" {
+				if data, err := hex.DecodeString(replay.Data); err == nil {
+					r.ReplayHit()
+					decodeOne(data)
+				}
+				return
+			}
 			// ---- encode side
 			var sets [][]*c51V
 			for _, t := range ts {
@@ -901,24 +1016,40 @@ func TestVerif_C51(t *testing.T) {
 				}
 				sets = append(sets, c51Vals(t, lvl))
 			}
-			combos := c51Product(sets)
-			for ci, combo := range combos {
+			for ci, combo := range c51Product(sets) {
 				vs := combo.E
 				c := c51Case{Mode: "encode", Types: tl, Value: c51CanonSeq(ts, vs)}
 				r.Case(c, func() error { return c51CheckEncode(ts, args, ats, vs, len(ts) == 1 && li < 200) })
 				r.DistinctHash(mc.Hash64("e|" + tl + "|" + c.Value))
-				outcomes["encode"]++
+				nEnc++
 				if ci == 0 && li%97 == 0 {
 					r.Sample(c)
 				}
 			}
-			// ---- decode side: all word sequences
-			if r.Expired() {
+			if replay != nil {
 				return
+			}
+			// ---- decode side: all word sequences
+			if len(ts) == 1 && !c51DecodeRep(ts[0]) {
+				return
+			}
+			atomic.AddInt64(&decodeLists, 1)
+			// a list of static types never looks beyond its head: longer sequences only repeat shorter ones
+			limit := maxWords
+			static, headWords := true, 0
+			for _, t := range ts {
+				static = static && !t.dynamic()
+				headWords += t.headSize() / 32
+			}
+			if static && headWords+1 < limit {
+				limit = headWords + 1
 			}
 			buf := make([]byte, 0, 32*maxWords+1)
 			idx := make([]int, maxWords)
-			for n := 1; n <= maxWords; n++ {
+			for n := 1; n <= limit; n++ {
+				if r.Expired() {
+					return
+				}
 				for i := range idx[:n] {
 					idx[i] = 0
 				}
@@ -927,31 +1058,11 @@ func TestVerif_C51(t *testing.T) {
 					for _, w := range idx[:n] {
 						buf = append(buf, alphabet[w]...)
 					}
-					for variant := 0; variant < 3; variant++ {
-						data := buf
-						switch variant {
-						case 1:
-							data = buf[:len(buf)-1]
-						case 2:
-							data = append(buf, 0x01)
-						}
-						var cls string
-						c := c51Case{Mode: "decode", Types: tl, Data: hex.EncodeToString(data)}
-						r.Case(c, func() error {
-							var err error
-							cls, err = c51CheckDecode(ts, args, data, "", false)
-							return err
-						})
-						outcomes["decode:"+cls]++
-						if cls != "error" && cls != "" {
-							if vals, err := args.Unpack(data); err == nil {
-								if cs, err := c51CanonGoSeq(ts, vals); err == nil {
-									r.DistinctHash(mc.Hash64("d|" + tl + "|" + cs))
-								}
-							}
-						}
+					decodeOne(buf)
+					decodeOne(buf[:len(buf)-1])
+					if variants > 2 {
+						decodeOne(append(buf, 0x01))
 					}
-					// next sequence
 					k := n - 1
 					for k >= 0 {
 						idx[k]++
@@ -965,11 +1076,8 @@ func TestVerif_C51(t *testing.T) {
 						break
 					}
 				}
-				if r.Expired() {
-					return
-				}
 			}
 		})
+		r.Bound("decode_argument_lists", atomic.LoadInt64(&decodeLists))
 	})
 }
-
